@@ -129,6 +129,15 @@ def _replay(recs, reused):
                         ev = r["img"]["v"]
                         if len(vs) != len(ev) or not all(same_class(a, np.array(b)) for a, b in zip(vs, ev)):
                             dd = {"vertices": [a.tolist() for a in vs]}
+                    if dd is None:
+                        # for every kind of polytope (polyhedra too): vertex k of the image is the image of vertex k
+                        try:
+                            vx, vy = list(x.vertices), list(y.vertices)
+                            if len(vx) != len(vy) or not all(same_class(np.asarray((t * a).array), np.asarray(b.array)) for a, b in zip(vx, vy)):
+                                dd = {"vertices of the image": [np.asarray(b.array).tolist() for b in vy],
+                                      "images of the vertices": [np.asarray((t * a).array).tolist() for a in vx]}
+                        except Exception as e:  # noqa: BLE001
+                            dd = f"vertices raised {type(e).__name__}: {e}"
                     if dd is not None:
                         out.append(dict(site=f"{r['x']['k']}/{dim}D/{form}", stratum=stratum, case=case, expected=r["img"], observed=dd))
             elif r["t"] == "cr":
